@@ -145,7 +145,7 @@ type Search struct {
 	// anywhere (a specific call or store), never "any return".
 	DeepHit bool
 	hitM    map[*ssa.Function]*deepRes
-	passM  map[*ssa.Function]*deepRes
+	passM   map[*ssa.Function]*deepRes
 }
 
 type deepRes struct {
